@@ -102,7 +102,7 @@ impl Property for C09 {
         "generated well-typed programs and single-point mutants (literal type, variable of another type, sigil add/flip/remove, cast wrap/unwrap, operator change, ternary/difficulty-switch branch type, call arity, declaration type, float condition/times count/clobber, assignment target) at a uniformly chosen node: accept/reject of passes::type_check::run vs the reference typer (M-typer); for accepted programs the checker's expression types vs the types of AstVm-evaluated values; non-trivial = mutation site nested (block depth >= 1 or expression depth >= 2)"
     }
     fn tape_len(&self, tier: Tier) -> usize { tier.pick(400, 700) }
-    fn cases(&self, tier: Tier) -> u32 { tier.pick(5000, 300000) }
+    fn cases(&self, tier: Tier) -> u32 { tier.pick(200000, 4000000) }
     fn required_labels(&self, _tier: Tier) -> Vec<&'static str> { vec!["expect:accept", "expect:reject", "mutant", "original", "site:cond", "site:arg", "site:init", "site:rhs", "in_free_block", "stmt_mutation", "types_compared"] }
 
     fn generate(&self, tape: &mut Tape, _tier: Tier, known: &Known) -> Value {
